@@ -27,7 +27,7 @@ def run(ctx):
     rng.shuffle(cases)
     cp = ctx.path("cases.ndjson")
     vlib.write_ndjson(cp, cases)
-    tp, out = ctx.godriver("c03", "TestC05", cases=cp, timeout=2400)
+    tp, out = ctx.godriver("c03", "^TestC05$", cases=cp, timeout=2400)
     recs = vlib.read_ndjson(tp)
     ctx.log("driver: %d cases, %d datagrams judged, reactions %s" % (
         len(cases), len(recs), {k: sum(1 for x in recs if x["got"] == k) for k in ("ok", "skip", "error", "ignored")}))
